@@ -191,7 +191,15 @@ func Mutations(s []byte, regs []refmodel.Region, allCuts bool, emit func(class, 
 			if !keep(r.Name) {
 				continue
 			}
-			for _, k := range []int{r.Off - 1, r.Off, r.Off + 1, r.Off + r.Len - 1} {
+			ks := []int{r.Off - 1, r.Off, r.Off + 1, r.Off + r.Len - 1}
+			if strings.Contains(r.Name, "pair[") && r.Len >= 4 {
+				// inside a mapping pair: before '=', after '=', after the value's length byte
+				kl := int(s[r.Off])
+				if 1+kl+2 < r.Len {
+					ks = append(ks, r.Off+1+kl, r.Off+1+kl+1, r.Off+1+kl+2)
+				}
+			}
+			for _, k := range ks {
 				if k >= 0 && k < len(s) {
 					cuts[k] = true
 				}
